@@ -39,7 +39,7 @@ def emit(pid, header, imports, items, extra=""):
     out.append(extra)
     open(os.path.join(ROOT, "coq/theories/Properties/%s.v" % pid), "w").write("\n".join(out))
 
-IMP = "From Sfs Require Import Index ArrayM Scalar Spectrum Project Create SampleParse Npy Text Container IndexP ArrayP BinomP ProjectP CreateP CreateSpecP SampleParseP ContainerP.\nFrom Coq Require Import Permutation.\nClose Scope string_scope."
+IMP = "From Sfs Require Import Index ArrayM Scalar Spectrum Project Create SampleParse Npy Text Container IndexP ArrayP BinomP ProjectP CreateP CreateSpecP SampleParseP SampleParseGenP ContainerP.\nFrom Coq Require Import Permutation.\nClose Scope string_scope."
 
 emit("C08", "(* Property C08 - genotype -> allele-count classification is total and exact. Statements + exact + Print Assumptions. *)", IMP, [
  ("called_iff", "CreateP", "classify_called_iff", "a diploid genotype contributes a+b exactly when both alleles are 0 or 1 (phasing is not even an input)"),
@@ -82,6 +82,9 @@ emit("C09", "(* Property C09 - axes follow first appearance of population labels
  ("inline_list_roundtrip", "SampleParseP", "parse_render_inline", "the inline syntax name=label,... denotes the list"),
  ("samples_file_roundtrip", "SampleParseP", "parse_render_file", "the file syntax name<TAB>label per line denotes the list"),
  ("samples_file_crlf", "SampleParseP", "parse_file_crlf", "Windows line ends are tolerated"),
+ ("inline_list_roundtrip_labels_with_equals", "SampleParseGenP", "parse_render_inline_gen", "the inline entry is split at its FIRST '=': labels may contain '=' (anything but ',')"),
+ ("samples_file_roundtrip_any_label", "SampleParseGenP", "parse_render_file_gen", "the file line is split at its FIRST tab: labels may contain spaces, '=', ',' and tabs"),
+ ("samples_file_equals_inline_general", "SampleParseGenP", "file_equiv_inline_gen", "the two syntaxes build the same map whenever the content can be written in both"),
  ("empty_list_is_error", "CreateSpecP", "build_reader_empty", "an empty list is an error"),
  ("unknown_sample_is_error", "CreateSpecP", "build_reader_unknown", "a listed sample that is absent from the input is an error"),
 ], extra="""(* non-vacuity: b=B,a=A,c=B gives axes (B: 5, A: 3) *)
